@@ -232,6 +232,10 @@ def verify(run, relpath, contract, fn_qual=None, contracts=None, fingerprint=Non
                 cex[n] = model_value(m2, exe.entry_state, v)
             except Exception as ex:  # pragma: no cover
                 cex[n] = f"<{ex}>"
+        try:
+            cex["__fs__"] = {k: model_value(m2, exe.entry_state, v) for k, v in exe.entry_fs.items()}
+        except Exception:
+            pass
         locals_ = {}
         for n, v in st.env.items():
             if n in cex or isinstance(v, (E.FuncV, E.LambdaV, E.ConstV, E.UnboundAfterLoop)):
